@@ -75,7 +75,7 @@ Fixpoint tagree (c : tcfg) (s : tstate) (ops : list top) (obs : list seen_t) : b
     | TAllowLate _ _ _ _ _, OA g _ a, TR g' a' _ =>      (* the flag was read earlier: not compared *)
       Bool.eqb g g' && Bool.eqb a a'
     | TAllow _ _ _ _ _, _, _ | TAllowF _ _ _ _ _, _, _ | TAllowC _ _ _ _, _, _ | TAllowLate _ _ _ _ _, _, _ => false
-    | TPing i, OP a, TU => Bool.eqb a (alive_of s' i)
+    | TPing i, OP a, TU | TPong i, OP a, TU => Bool.eqb a (alive_of s' i)
     | _, ON, TU => true
     | _, _, _ => false
     end && tagree c s' ops' obs'
@@ -164,6 +164,10 @@ Fixpoint token_walk (rt bs : Z) (b : bucket) (down : bool) (ops : list top) (obs
     (* RECOVERY: once the store answers again, every instance is back on the shared bucket
        within a monitor period (the executor gave it >= 20) *)
     let '(ok, acc') := token_walk rt bs b down ops' obs' acc in ((down || a) && ok, acc')
+  | TPong i :: ops', OP a :: obs' =>
+    (* the store answered the monitor's ping: the instance switches back (even if the store has gone
+       down again meanwhile: the next call will notice) *)
+    let '(ok, acc') := token_walk rt bs b down ops' obs' acc in (a && ok, acc')
   | TDown :: ops', _ :: obs' => token_walk rt bs b true ops' obs' acc
   | TUp :: ops', _ :: obs' => token_walk rt bs b false ops' obs' acc
   | _ :: ops', _ :: obs' => token_walk rt bs b down ops' obs' acc
